@@ -726,3 +726,49 @@ Proof.
     + left. destruct (B2 M1 Fit) as [R1 R2]. repeat split; assumption.
     + right. split; [exact NoFit|apply B3; assumption].
 Qed.
+
+(* ------------------------------------------------------------------ *)
+(* Ill-formed UTF-8 is never converted                                 *)
+(* ------------------------------------------------------------------ *)
+Lemma toascii_loop_wellformed : forall fuel lab si w,
+  Forall byte si -> (length si <= fuel)%nat ->
+  (0 <= fst (toascii_loop (list N) cons fuel lab si w))%Z ->
+  exists cps, utf8_string si cps.
+Proof.
+  induction fuel as [|f IH]; intros lab si w HB Hf Hrc.
+  - destruct si; [exists []; constructor|cbn in Hf; lia].
+  - destruct si as [|b0 si0]; [exists []; constructor|].
+    cbn [toascii_loop] in Hrc.
+    destruct (utf8_decode1 (b0 :: si0)) as [c si'] eqn:E.
+    destruct (c =? UINT_MAX) eqn:Ec; [cbn [fst] in Hrc; unfold UV_EINVAL in Hrc; lia|].
+    apply N.eqb_neq in Ec. rename Ec into Nc.
+    destruct (utf8_decode_complete (b0 :: si0) ltac:(discriminate) HB ltac:(rewrite E; exact Nc))
+      as (bs & v & rest & Es & W).
+    rewrite Es, (utf8_decode_sound bs v rest W) in E. injection E as <- <-.
+    assert (HBr : Forall byte rest) by (rewrite Es in HB; apply Forall_app in HB; apply HB).
+    assert (Hl : (length rest <= f)%nat).
+    { pose proof (utf8_wf_length bs v W). apply (f_equal (@length N)) in Es.
+      rewrite app_length in Es. cbn [length] in *. lia. }
+    rewrite Es.
+    assert (G : forall lab' w', (0 <= fst (toascii_loop (list N) cons f lab' rest w'))%Z ->
+                exists cps, utf8_string (bs ++ rest) cps).
+    { intros lab' w' H. destruct (IH lab' rest w' HBr Hl H) as [cps Hc].
+      exists (v :: cps). constructor; assumption. }
+    destruct (is_dot v).
+    + destruct (idna_toascii_label (list N) cons (rev lab) w) as [rc w'].
+      destruct (rc <? 0)%Z eqn:L; [cbn [fst] in Hrc; apply Z.ltb_lt in L; lia|].
+      eapply G; exact Hrc.
+    + eapply G; exact Hrc.
+Qed.
+
+Theorem toascii_rejects_illformed s de :
+  Forall byte s -> (0 <= fst (idna_toascii s de))%Z -> exists cps, utf8_string s cps.
+Proof.
+  intros HB Hrc. destruct s as [|b0 s0]; [cbn in Hrc; unfold UV_EINVAL in Hrc; lia|].
+  pose proof (toascii_bounded (b0 :: s0) de ltac:(discriminate)) as B.
+  destruct (idna_toascii (b0 :: s0) de) as [rc w]. unfold toascii_full in B.
+  destruct (toascii_loop (list N) cons (length (b0 :: s0)) [] (b0 :: s0) []) as [rcu out] eqn:E.
+  destruct B as (_ & _ & _ & _ & B1 & _). cbn [fst] in Hrc.
+  apply (toascii_loop_wellformed (length (b0 :: s0)) [] (b0 :: s0) [] HB (le_n _)).
+  rewrite E. cbn [fst]. destruct (Z.ltb_spec rcu 0); [rewrite (B1 H) in Hrc; lia|lia].
+Qed.
